@@ -1129,4 +1129,125 @@ theorem formPairsRaw_formSerialize : ∀ (pairs : List (List Nat × List Nat)),
       rw [ih']
       rfl
 
+
+/-! ### which errors can come out -/
+
+theorem visitMap_error {β : Type} {de : List Nat → Ty → β → Except Err Val} {fields : List Field} {e : Err} :
+    ∀ {ps : List (List Nat × β)} {acc : List (List Nat × Val)}, visitMap de fields ps acc = .error e →
+    (∃ k, e = .duplicateField k) ∨ ∃ k t b, de k t b = .error e := by
+  intro ps
+  induction ps with
+  | nil => intro acc h; simp [visitMap] at h
+  | cons p ps ih =>
+    intro acc h
+    obtain ⟨k, b⟩ := p
+    simp only [visitMap] at h
+    cases hf : findField k fields with
+    | none => simp only [hf] at h; exact ih h
+    | some f =>
+      simp only [hf] at h
+      cases hl : lookup k acc with
+      | some v =>
+        simp only [hl, Except.error.injEq] at h
+        exact Or.inl ⟨k, h.symm⟩
+      | none =>
+        simp only [hl] at h
+        cases hd : de k f.ty b with
+        | error e' =>
+          simp only [hd, Except.error.injEq] at h
+          subst h
+          exact Or.inr ⟨k, f.ty, b, hd⟩
+        | ok x =>
+          simp only [hd] at h
+          exact ih h
+
+theorem finishFields_error {e : Err} {acc : List (List Nat × Val)} :
+    ∀ {fs : List Field}, finishFields fs acc = .error e → ∃ n, e = .missingField n := by
+  intro fs
+  induction fs with
+  | nil => intro h; simp [finishFields] at h
+  | cons f fs ih =>
+    intro h
+    simp only [finishFields] at h
+    cases ho : finishOne acc f with
+    | error e' =>
+      simp only [ho, Except.error.injEq] at h
+      subst h
+      unfold finishOne at ho
+      split at ho
+      · cases ho
+      · split at ho
+        · cases ho
+        · cases ho
+        · simp only [Except.error.injEq] at ho
+          exact ⟨f.name, ho.symm⟩
+    | ok v =>
+      simp only [ho] at h
+      cases hr : finishFields fs acc with
+      | error e' =>
+        simp only [hr, Except.error.injEq] at h
+        subst h
+        exact ih hr
+      | ok r => simp [hr] at h
+
+theorem pathField_error {k : List Nat} {t : Ty} {v : List Nat} {o : Bool} {e : Err}
+    (h : pathField k t v o = .error e) :
+    e = .borrowedStr k ∨ (∃ st, e = .parseAt k v st) ∨ e = .unsupported := by
+  unfold pathField at h
+  split at h
+  · split at h
+    · cases h
+    · split at h
+      · simp only [Except.error.injEq] at h; exact Or.inl h.symm
+      · simp only [Except.error.injEq] at h; exact Or.inr (Or.inl ⟨_, h.symm⟩)
+  · split at h
+    · cases h
+    · split at h
+      · simp only [Except.error.injEq] at h; exact Or.inl h.symm
+      · simp only [Except.error.injEq] at h; exact Or.inr (Or.inl ⟨_, h.symm⟩)
+  · simp only [Except.error.injEq] at h; exact Or.inr (Or.inr h.symm)
+  · simp only [Except.error.injEq] at h; exact Or.inr (Or.inr h.symm)
+
+/-! ### routing: one `{param}` per segment -/
+
+theorem splitOn_joinSlash : ∀ (segs : List (List Nat)), segs ≠ [] → (∀ s ∈ segs, 47 ∉ s) →
+    splitOn 47 (joinSlash segs) = segs := by
+  intro segs
+  induction segs with
+  | nil => intro h; exact absurd rfl h
+  | cons s rest ih =>
+    intro _ hs
+    have h1 : 47 ∉ s := hs s (List.mem_cons_self ..)
+    cases rest with
+    | nil => simp [joinSlash, splitOn_no_sep h1]
+    | cons s' rest' =>
+      have : joinSlash (s :: s' :: rest') = s ++ 47 :: joinSlash (s' :: rest') := by
+        simp [joinSlash]
+      rw [this, splitOn_append_sep _ h1, ih (by simp) (fun x hx => hs x (List.mem_cons_of_mem _ hx))]
+
+theorem matchSegs_params : ∀ (names segs : List (List Nat)), names.length = segs.length →
+    (∀ s ∈ segs, s ≠ []) → matchSegs (names.map Seg.param) segs = some (names.zip segs) := by
+  intro names
+  induction names with
+  | nil =>
+    intro segs hl _
+    cases segs with
+    | nil => simp [matchSegs]
+    | cons _ _ => simp at hl
+  | cons n names ih =>
+    intro segs hl hne
+    cases segs with
+    | nil => simp at hl
+    | cons s segs =>
+      have hs : s ≠ [] := hne s (List.mem_cons_self ..)
+      have hlen : names.length = segs.length := by simpa using hl
+      have ih' := ih segs hlen (fun x hx => hne x (List.mem_cons_of_mem _ hx))
+      have hsE : s.isEmpty = false := by
+        cases s with
+        | nil => exact absurd rfl hs
+        | cons _ _ => rfl
+      simp only [List.map_cons, List.zip_cons_cons]
+      unfold matchSegs
+      simp [hsE, ih']
+
 end Pxv.ReqData
